@@ -794,7 +794,7 @@ func updateFunCallFunType(tgen func() TypeVar, res Resolver, vr VarRef, args []E
 			tv := _v4.Value
 			ntv := frt.Pipe(tgen(), New_FType_FTypeVar)
 			nftype := frt.Pipe(frt.Pipe(slice.Map(ExprToType, args), (func(_r0 []FType) []FType { return slice.PushLast(ntv, _r0) })), newFFunc)
-			frt.Pipe(UniRel{SrcV: tv.Name, Dest: nftype}, (func(_r0 UniRel) []UniRel { return updateResOne(res, _r0) }))
+			updateResolver(res, ([]UniRel{UniRel{SrcV: tv.Name, Dest: nftype}}))
 			return frt.Pipe(Var{Name: v.Name, Ftype: nftype}, New_VarRef_VRVar)
 		default:
 			PanicNow("Unknown funcall first arg type.")
